@@ -378,6 +378,73 @@ func TestC10Huge(t *testing.T) {
 	})
 }
 
+// genRankText: a text of 1100..2700 bytes without repeats of 4 and more bytes
+// (bytes spread over 250 values) except one planted pair "v 0 0 0", built so
+// that the pair sits at a chosen index of the LCP table (exactly T-1 suffixes
+// sort in front of it): T is a power of two, a multiple of 256, or next to
+// one. What a scan does at particular table indexes (chunks, blocks, word
+// boundaries) meets a group there, with nothing reportable around it.
+func genRankText(t *rapid.T) ([]byte, int) {
+	T := rapid.SampledFrom([]int{1024, 2048, 512, 256, 1023, 1025, 768, 1536, 2047, 64}).Draw(t, "rankIndex")
+	n := maxInt(T+200, 1100) + rapid.IntRange(0, 600).Draw(t, "rankExtra")
+	const v = 128
+	low := T - 1 - 6 // bytes below v besides the six zeros of the pair
+	if low < 0 {
+		low = 0
+	}
+	seed := rapid.Uint64().Draw(t, "rankSeed")
+	next := func() uint64 {
+		seed += 0x9e3779b97f4a7c15
+		z := seed
+		z = (z ^ (z >> 30)) * 0xbf58476d1ce4e5b9
+		z = (z ^ (z >> 27)) * 0x94d049bb133111eb
+		return z ^ (z >> 31)
+	}
+	body := make([]byte, 0, n)
+	for i := 0; i < low; i++ {
+		body = append(body, 1+byte(next()%(v-1)))
+	}
+	for len(body) < n-8 {
+		body = append(body, v+1+byte(next()%(255-v)))
+	}
+	for i := len(body) - 1; i > 0; i-- { // shuffle
+		j := int(next() % uint64(i+1))
+		body[i], body[j] = body[j], body[i]
+	}
+	a := int(next() % uint64(len(body)-2))
+	b := a + 1 + int(next()%uint64(len(body)-a-1))
+	pair := []byte{v, 0, 0, 0}
+	out := append([]byte{}, body[:a]...)
+	out = append(out, pair...)
+	out = append(out, body[a:b]...)
+	out = append(out, pair...)
+	out = append(out, body[b:]...)
+	return out, T
+}
+
+// TestC10Rank: see genRankText; minLen 4 (or 3, 2), maxLen from genSegLens or
+// large.
+func TestC10Rank(t *testing.T) {
+	st := statsFor("C10")
+	rapid.Check(t, func(t *rapid.T) {
+		text, T := genRankText(t)
+		c := segCase{Text: text, LibSA: rapid.Bool().Draw(t, "libSA")}
+		c.MinLen = rapid.SampledFrom([]int{4, 4, 3, 2, 1}).Draw(t, "minLen")
+		c.MaxLen = c.MinLen + rapid.SampledFrom([]int{0, 1, 60, 63, 1 << 20}).Draw(t, "maxLenBy")
+		beginCase("C10", "rank", func() any { return c })
+		defer endCase()
+		msg, bad, nt := checkSegCase(c)
+		endCase()
+		if bad {
+			recordFailure("C10", "rank", c, msg)
+			t.Fatalf("C10 violated (a group at table index %d): %s", T, msg)
+		}
+		st.eval([]string{"group-at-chosen-table-index"}, nt || c.MinLen >= 4, hashJSON(c), "rank", func() any {
+			return map[string]any{"text_bytes": len(text), "table_index": T, "minLen": c.MinLen, "maxLen": c.MaxLen}
+		})
+	})
+}
+
 // TestC10Enum: all texts over {a,b} up to length $VERIF_C10_AB (default 9) and
 // over {a,b,c} up to $VERIF_C10_ABC (default 5), each with every
 // (minLen, maxLen), 0 <= minLen <= maxLen <= n+1.
